@@ -30,6 +30,7 @@ def isProgress : Act → Bool
   | .explicitUnload _ => false
   | .setPing .. => false
   | .setPingBlock _ => false
+  | .setPingOpen _ => false
   | .pingDone _ ok => !ok          -- a parked health check times out by itself (10 s): `pingDone r false`
   | _ => true
 
